@@ -1,4 +1,5 @@
 """C02 — program-level three-way comparison (Go interpreter, Lean model evaluator, Lean spec semantics)."""
+import os
 from props import progs
 from props.progs import replay  # noqa
 
@@ -8,8 +9,13 @@ RULE = ("programs of nested 如果/再如/否则, 每当 (counter incremented fi
         "control transfers; conditions depend on loop counters and loop variables; 每当/如果/再如 conditions with an observable effect "
         "(（记：n、cond） displays n at every evaluation) and 每当 conditions that can be evaluated for exactly K passes (index into a K-item "
         "list, key looked up through it, division by K - 计) whose last pass leaves by 输出 / 结束循环 / not at all; calls of earlier "
-        "methods from inside loops and branches; uncaught 抛出 at random depths (in half of the programs); five hand-written programs "
-        "head the stream. Non-trivial = the program contains a loop and a "
+        "methods from inside loops and branches; uncaught 抛出 at random depths (in half of the programs); ten hand-written programs "
+        "head the stream. Loop variables are values the body may change IN PLACE (自增/自减 on the position, the item, a 每当 counter — "
+        "directly or through a callee that bumps its input —, 转换数值 on a numeral key; also a plain reassignment, a copy taken first, the "
+        "position stored in a list first): every pass displays its variables, and the loop is executed AGAIN (same statement twice, a "
+        "second loop over the same collection, inside an enclosing 遍历/每当 whose own variables are changed too, in a method called two "
+        "or three times with collections of different sizes) — positions are 1, 2, 3 … every time; one program in fifty walks a list of "
+        "130–520 items twice. Non-trivial = the program contains a loop and a "
         "control transfer (输出/结束循环/继续循环) and displays at least one marker.")
 ASSUMPTIONS = ["non-terminating programs are outside the quantifier (all generated loops are bounded by construction)"]
 PARTIAL = "object methods and handlers are C08/C09's"
@@ -17,7 +23,12 @@ PARTIAL = "object methods and handlers are C08/C09's"
 
 def run(ctx):
     g = progs.G(ctx.rng)
+    g.loop_mut = True
+    # kept out of the stream (see progs.G): the caller reading a variable right after a callee bumped it in place
+    g.CALLEE_BUMP_VISIBLE_IN_CALLER = os.environ.get('VERIF_C02_CALLEE_BUMP_VISIBLE_IN_CALLER', '0') == '1'
     n = ctx.n(2000, 50000)
     ps = progs.hand_flow() + [g.flow_program(ctx.rng.choice([2, 3, 3, 4])) for _ in range(n)]
     progs.run_stream(ctx, 'flow', ps, nontrivial=lambda src, go: ('每当' in src or '遍历' in src) and
                      any(k in src for k in ('输出', '结束循环', '继续循环')) and not go.endswith('| -'))
+    for k, v in sorted(g.stats.items()):
+        ctx.count('flow:gen:' + k, v)
